@@ -35,12 +35,14 @@ pub enum RuleSel {
     Rot(usize),      // order selector: 0 -> 2, 1 -> 4, 2 -> n
     /// two periodic columns of different cycle lengths in one rule: selector 0 -> (2, n), 1 -> (n, 4), 2 -> (4, n/2)
     Periodic2(usize),
+    /// classic Fibonacci pair a' = a + b, b' = b + a' (the next value of a enters both constraints)
+    Fib2,
     Same,
     Fib,
     /// every column constant (x' = x): the fully degenerate trace
     AllSame,
 }
-pub const RULES: [RuleSel; 18] = [
+pub const RULES: [RuleSel; 19] = [
     RuleSel::Pow(2),
     RuleSel::Pow(1),
     RuleSel::Pow(3),
@@ -59,6 +61,7 @@ pub const RULES: [RuleSel; 18] = [
     RuleSel::Periodic2(0),
     RuleSel::Periodic2(1),
     RuleSel::Periodic2(2),
+    RuleSel::Fib2,
 ];
 /// exemption selector: 0 -> 1, 1 -> 2, 2 -> 3, 3 -> n/2, 4 -> n/2+1
 pub const NEXEMPT: usize = 5;
@@ -144,6 +147,9 @@ pub fn statement(p: &Point, seed: u64) -> Option<Statement> {
         3 => n / 2,
         _ => n / 2 + 1,
     };
+    // a Fibonacci pair occupies two columns; when the assertion set also needs a rotation column the trace gets a
+    // third one instead of the point being dropped
+    let width = if width == 2 && matches!(RULES[p.d[1]], RuleSel::Fib | RuleSel::Fib2) && asserts(p.d[5], n, e, width).1.is_some() { 3 } else { width };
     let (asserts, rot) = asserts(p.d[5], n, e, width);
     // for narrow traces two selectors can name the same cell: overlapping assertions are not part of the supported class
     let mut dedup: Vec<ASpec> = vec![];
@@ -180,9 +186,16 @@ pub fn statement(p: &Point, seed: u64) -> Option<Statement> {
             rules[0] = Rule::FibA;
             rules[1] = Rule::FibB;
         },
+        RuleSel::Fib2 => {
+            if width < 2 {
+                return None;
+            }
+            rules[0] = Rule::FibC;
+            rules[1] = Rule::FibD;
+        },
     }
     if let Some(order) = rot {
-        if width < 2 || (width == 2 && matches!(RULES[p.d[1]], RuleSel::Fib)) {
+        if width < 2 || (width == 2 && matches!(RULES[p.d[1]], RuleSel::Fib | RuleSel::Fib2)) {
             return None;
         }
         rules[width - 1] = Rule::Rot { order };
